@@ -2,7 +2,6 @@ CONSTANTS
   Mode = "dag"
   N = 3
   MaxEdges = 9
-  MaxBr = 0
   FailKinds = {"err","panic"}
   AllowDangling = FALSE
   Runs = 2
